@@ -16,6 +16,11 @@ Flat abstract design: {"name", "ports":[{"name","direction","width"}], "models":
   "instances":[{"kind","model","cname","attr","param","pins":[[port,idx|None,net,idx|None] | [port,idx|None,"unconn",None]],
                "inputs":[[net,idx]], "output":[net,idx], "covers":[str], "latch":[in,out,type,control,init]}], "conns":[[[n,i],[n,i]]]}
 
+Net names: 30% from an adversarial alphabet; on top of that 35% of the designs get 1-3 of their nets (top ports included) renamed to
+names that contain a reserved word of the format as a prefix / suffix / infix / case variant (unconn - the "open" actual -, the
+constant names $true $false $undef, statement keywords, latch type words) or that look like an indexed bit without being one
+(reserved_word_names); the oracle stays literal: only the exact actual `unconn` is open, every other actual is a net.
+
 style: seed, bb_pos ('after'|'before'|'mixed'), comments ('none'|'line'|'tight' between statements|'trailing' on statement lines|
   'after-model' between .model and .inputs|'inner' between a statement and its .cname/.attr/.param), header_gap (blank/comment line
   between .inputs and .outputs), continuation (probability),
@@ -125,7 +130,95 @@ def gen_flat(seed):
                                 'inputs': [list(x) for x in ins], 'output': list(out),
                                 'covers': [''.join(rw.choice('01-') for _ in range(k)) + ' 1' for _ in range(rw.randint(1, 2))]})
     ad['nets'] = [list(x) for x in nets]
+    # net names that contain reserved words of the format, again from a generator of their own
+    reserved_word_names(ad, random.Random('flat-resv:%s' % seed))
     return ad
+
+
+# reserved words of BLIF/EBLIF as they may turn up inside ordinary net names (none of these names IS the open actual `unconn`)
+UNCONN_LIKE = ['unconnected_%s', 'unconn_%s', 'unconn%s', '%s_unconn', 'dbg_unconn_%s', '%s.unconn', 'UNCONN', 'Unconn', 'unconn$%s', '$unconn', 'xunconn',
+               'unconn_', '_unconn', 'unconnx']
+CONST_LIKE = ['$true', '$false', '$undef', '$true_%s', '%s$false', '$undef.%s', 'n$true$%s', '$TRUE', '$falsey']
+WORD_LIKE = ['names', 'latch_%s', 'subckt', 'end', '%s.end', 'model_%s', 'conn', 'conn_%s', 'cname', 'blackbox', 'inputs', 'gate%s', '%s.names', 're', 'fe', 'ah_%s',
+             'nil', 'NIL_%s']
+BIT_LIKE = ['%s[0]_x', '%s_0_', '%s[1]q', '%s<1>', '%s(2)', 'b[%s', '%s]x']
+
+
+def reserved_name(r, used):
+    for k in range(200):
+        fam = r.choice([UNCONN_LIKE] * 5 + [CONST_LIKE] * 2 + [WORD_LIKE] * 2 + [BIT_LIKE])
+        t = r.choice(fam)
+        w = (t % (r.choice(W) + (str(r.randint(0, 9)) if r.random() < 0.5 else ''))) if '%s' in t else t
+        if k > 50:
+            w += '_%d' % k
+        if w not in used and w != 'unconn' and not w.endswith(']'):
+            used.add(w)
+            return w
+    raise RuntimeError('names exhausted')
+
+
+def all_names(ad):
+    s = set(['unconn', ad['name']])
+    s.update(n for n, i in ad['nets'])
+    s.update(p['name'] for p in ad['ports'])
+    s.update(m['name'] for m in ad['models'])
+    s.update(i['cname'] for i in ad['instances'] if i.get('cname'))
+    return s
+
+
+def rename_net(ad, old, new):
+    """rename the net (scalar or bus) `old`, and the top port of that name if there is one, everywhere in the flat design"""
+    def fix(x):
+        if x[0] == old:
+            x[0] = new
+    for p in ad['ports']:
+        if p['name'] == old:
+            p['name'] = new
+    for x in ad['nets']:
+        fix(x)
+    for i in ad['instances']:
+        for p in i.get('pins', []):
+            if p[2] == old:
+                p[2] = new
+        for x in i.get('inputs', []):
+            fix(x)
+        if 'output' in i:
+            fix(i['output'])
+        if 'latch' in i:
+            fix(i['latch'][0]); fix(i['latch'][1]); fix(i['latch'][3])
+    for c in ad['conns']:
+        fix(c[0]); fix(c[1])
+
+
+def used_nets(ad):
+    """names of the nets that are the actual of at least one .subckt/.gate/.names/.latch pin, in order of first use"""
+    out = []
+    for i in ad['instances']:
+        for p in i.get('pins', []):
+            out.append(p[2])
+        out += [x[0] for x in i.get('inputs', [])]
+        if 'output' in i:
+            out.append(i['output'][0])
+        if 'latch' in i:
+            out += [i['latch'][0][0], i['latch'][1][0], i['latch'][3][0]]
+    seen, res = set(), []
+    for n in out:
+        if n != 'unconn' and n not in seen:
+            seen.add(n); res.append(n)
+    return res
+
+
+def reserved_word_names(ad, r, p=0.35, force=False):
+    """Give 1-3 nets that are used as actuals (scalar nets, buses, nets of top ports) a name that contains a reserved word."""
+    if r.random() >= p and not force:
+        return False
+    cands = used_nets(ad)
+    if not cands:
+        return False
+    used = all_names(ad)
+    for old in r.sample(cands, min(len(cands), r.choice([1, 1, 2, 3]))):
+        rename_net(ad, old, reserved_name(r, used))
+    return True
 
 
 def corner_ads():
@@ -136,7 +229,35 @@ def corner_ads():
             'models': [], 'conns': [], 'nets': [[n, None] for n in ins] + [['o', None]],
             'instances': [{'kind': 'names', 'cname': 'wide_and', 'attr': {}, 'param': {}, 'inputs': [[n, None] for n in ins], 'output': ['o', None],
                            'covers': ['1' * k + ' 1', '0-1' + '-' * (k - 3) + ' 1']}]}
-    return [('names-with-13-inputs', wide)]
+    # reserved words of the format inside ordinary net names, on every kind of statement; only the actual `unconn` is open
+    def sub(kind, model, cname, pins):
+        return {'kind': kind, 'model': model, 'cname': cname, 'attr': {}, 'param': {}, 'pins': pins}
+    resv = {'name': 'resv', 'flavor': 'eblif',
+            'ports': [{'name': 'a', 'direction': 'IN', 'width': 1}, {'name': 'unconnected_in', 'direction': 'IN', 'width': 1},
+                      {'name': '$true', 'direction': 'IN', 'width': 1}, {'name': 'y', 'direction': 'OUT', 'width': 1},
+                      {'name': 'unconn_o', 'direction': 'OUT', 'width': 2}],
+            'models': [{'name': 'BUF', 'declared': True, 'ports': [{'name': 'O', 'direction': 'OUT', 'width': 1}, {'name': 'I', 'direction': 'IN', 'width': 1}]},
+                       {'name': 'OR2', 'declared': False, 'ports': [{'name': 'Y', 'direction': 'OUT', 'width': 1}, {'name': 'A', 'direction': 'IN', 'width': 1},
+                                                                    {'name': 'B', 'direction': 'IN', 'width': 1}]}],
+            'conns': [],
+            'instances': [sub('subckt', 'BUF', 'u_buf', [['I', None, 'unconnected_in', None], ['O', None, 'unconn', None]]),
+                          sub('subckt', 'OR2', 'u_or', [['A', None, 'a', None], ['B', None, 'unconnected_in', None], ['Y', None, 'dbg_unconn_2', None]]),
+                          sub('gate', 'BUF', None, [['I', None, 'dbg_unconn_2', None], ['O', None, 'unconn_3', 1]]),
+                          sub('subckt', 'BUF', 'u_b2', [['I', None, 'unconn_3', 1], ['O', None, 'unconn_o', 0]]),
+                          sub('subckt', 'BUF', 'u_b3', [['I', None, '$true', None], ['O', None, '$false', None]]),
+                          {'kind': 'names', 'cname': 'u_lut', 'attr': {}, 'param': {}, 'inputs': [['$false', None], ['UNCONN', None], ['unconn_3', 0]],
+                           'output': ['$undef', None], 'covers': ['1-0 1']},
+                          {'kind': 'names', 'cname': None, 'attr': {}, 'param': {}, 'inputs': [['$undef', None]], 'output': ['unconn_', None], 'covers': ['1 1']},
+                          {'kind': 'latch', 'cname': 'u_ff', 'attr': {}, 'param': {}, 'short': False,
+                           'latch': [['unconn_', None], ['xunconn', None], 're', ['unconnected_in', None], '0']},
+                          {'kind': 'latch', 'cname': None, 'attr': {}, 'param': {}, 'short': False,
+                           'latch': [['xunconn', None], ['unconn_o', 1], 'fe', ['a', None], '2']},
+                          sub('subckt', 'BUF', 'u_b4', [['I', None, 'xunconn', None], ['O', None, 'UNCONN', None]]),
+                          sub('subckt', 'BUF', 'u_b5', [['I', None, 'unconn_o', 1], ['O', None, 'unconn_3', 0]]),
+                          sub('subckt', 'BUF', 'u_b6', [['I', None, 'unconn_o', 0], ['O', None, 'y', None]])]}
+    resv['nets'] = [[p['name'], None if p['width'] == 1 else b] for p in resv['ports'] for b in range(p['width'])] + \
+                   [['dbg_unconn_2', None], ['unconn_3', 0], ['unconn_3', 1], ['$false', None], ['$undef', None], ['UNCONN', None], ['unconn_', None], ['xunconn', None]]
+    return [('names-with-13-inputs', wide), ('reserved-words-inside-net-names', resv)]
 
 
 def features(ad):
